@@ -202,26 +202,6 @@ def need_flags():
         hit = [n for n, (e, t, c_, when, body) in trg.items() if e == ev and t == table and (col is None or c_ == col)
                and when is None and any(st in body for st in stmts)]
         out.append((f"scan/need_flags/trigger/{name}", bool(hit), f"triggers: {hit}"))
-    rec = _calls_in("stepup/core/workflow.py", "Workflow.reconcile_targets")
-    src, node = extract.find_def("stepup/core/workflow.py", "Workflow.reconcile_targets")
-    text = ast.unparse(node)
-    # the SQL texts of the function, layout-insensitive (string constants and f-strings with their holes as `?`)
-    sqls = []
-    for n in ast.walk(node):
-        if isinstance(n, ast.Call) and isinstance(n.func, ast.Attribute) and n.func.attr == "execute" and n.args:
-            a = n.args[0]
-            if isinstance(a, ast.Constant) and isinstance(a.value, str):
-                raw = a.value
-            elif isinstance(a, ast.JoinedStr):
-                raw = "".join(v.value if isinstance(v, ast.Constant) else "?" for v in a.values)
-            else:
-                continue
-            try:
-                sqls.append(sqlfront.normalize(raw))
-            except sqlfront.SQLError:
-                pass
-    out.append(("scan/need_flags/reconcile_flags_stale_targets",
-                any(q.startswith("UPDATE step SET _check_after = 1 WHERE _implied_need = ?") for q in sqls), str(sqls)))
-    out.append(("scan/need_flags/reconcile_flags_producers",
-                any(q == "UPDATE step SET _check_after = 1 WHERE node = ?" for q in sqls) and "RECONCILE_TARGET_DIRS" in text, str(sqls)))
+    # (what reconcile_targets flags -- the stale TARGET values first, the producers of valid targets, the directory
+    # targets last -- is stated by its function contract: contracts/C19_targets.py)
     return out
